@@ -105,4 +105,138 @@ theorem audit_allAmounts_inRange {all : List (Cookware (Value Rat))} {i : Cookwa
   | none => simp [hf]
   | some q => simp [hf]
 
+/-! ### list building and aisle split composed: the weight of the entries whose name satisfies `p` -/
+
+/-- the weight of everything a list holds under the names that satisfy `p` -/
+def selW (w : SQuantity Rat → Rat) (p : Str → Bool) (m : IngredientList Rat) : Rat :=
+  sumBy (fun e => if p e.1 = true then GroupedQuantity.gsum w e.2 else 0) m
+
+theorem audit_selW_replace (w : SQuantity Rat → Rat) (p : Str → Bool) (k : Str) (v old : GroupedQuantity Rat)
+    (m : IngredientList Rat) (h : BMap.get? m k = some old) :
+    selW w p (BMap.replace k v m) = selW w p m - (if p k = true then GroupedQuantity.gsum w old else 0) +
+      (if p k = true then GroupedQuantity.gsum w v else 0) := by
+  induction m with
+  | nil => simp [BMap.get?] at h
+  | cons e rest ih =>
+    unfold BMap.replace
+    by_cases hek : e.1 = k
+    · simp only [BMap.get?, hek, if_true, Option.some.injEq] at h
+      subst h
+      simp only [hek, if_true, selW, sumBy_cons]
+      grind
+    · simp only [BMap.get?, hek, if_false] at h
+      have := ih h
+      simp only [selW] at this
+      simp only [hek, if_false, selW, sumBy_cons, this]
+      grind
+
+theorem audit_selW_insertSorted (w : SQuantity Rat → Rat) (p : Str → Bool) (k : Str) (v : GroupedQuantity Rat)
+    (m : IngredientList Rat) :
+    selW w p (BMap.insertSorted k v m) = selW w p m + (if p k = true then GroupedQuantity.gsum w v else 0) := by
+  induction m with
+  | nil => simp only [BMap.insertSorted, selW, sumBy_cons, sumBy_nil]; grind
+  | cons e rest ih =>
+    unfold BMap.insertSorted
+    split
+    · simp only [selW] at ih
+      simp only [selW, sumBy_cons, ih]; grind
+    · simp only [selW, sumBy_cons]; grind
+
+theorem audit_selW_addIngredient {c : Converter Rat} {w : SQuantity Rat → Rat} (hw : Additive c w)
+    (p : Str → Bool) (ord : MapOrder Rat) (hord : ord.IsPerm) (m : IngredientList Rat) (n : Str)
+    (q : GroupedQuantity Rat) :
+    selW w p (addIngredient ord c m n q) = selW w p m + (if p n = true then GroupedQuantity.gsum w q else 0) := by
+  unfold addIngredient BMap.upsert
+  split
+  · rename_i old hold
+    rw [audit_selW_replace w p n _ old m hold]
+    simp only [Option.getD_some, GroupedQuantity.merge_gsum hw ord hord]
+    split <;> grind
+  · rw [audit_selW_insertSorted]
+    simp only [Option.getD_none, GroupedQuantity.merge_gsum hw ord hord, GroupedQuantity.gsum_empty]
+    split <;> grind
+
+theorem audit_selW_foldl_addEntry {c : Converter Rat} {w : SQuantity Rat → Rat} (hw : Additive c w)
+    (p : Str → Bool) (ord : MapOrder Rat) (hord : ord.IsPerm) (es : List (GroupedIngredient Rat))
+    (m : IngredientList Rat) :
+    selW w p (es.foldl (addEntry ord c) m) = selW w p m +
+      sumBy (fun e => if e.ingredient.modifiers.shouldBeListed = true ∧ p e.ingredient.displayName = true
+        then GroupedQuantity.gsum w e.quantity else 0) es := by
+  induction es generalizing m with
+  | nil => simp only [List.foldl_nil, sumBy_nil]; grind
+  | cons e rest ih =>
+    simp only [List.foldl_cons, sumBy_cons, ih]
+    unfold addEntry
+    by_cases hl : e.ingredient.modifiers.shouldBeListed = true
+    · simp only [hl, Bool.not_true, Bool.false_eq_true, if_false, true_and,
+        audit_selW_addIngredient hw p ord hord]
+      grind
+    · have hl' : e.ingredient.modifiers.shouldBeListed = false := by simpa using hl
+      simp only [hl', Bool.not_false, if_true, Bool.false_eq_true, false_and, if_false]; grind
+
+/-- what one recipe contributes to the names that satisfy `p`, by the recipe's own tables -/
+def selContribution (w : SQuantity Rat → Rat) (p : Str → Bool) (r : ScaledRecipe Rat) : Rat :=
+  sumBy (fun i => if i.listedDef = true ∧ p i.displayName = true
+    then sumBy w (defQuantities r.ingredients i) else 0) r.ingredients
+
+theorem audit_selW_addRecipe {c : Converter Rat} {w : SQuantity Rat → Rat} (hw : Additive c w)
+    (hf : FitInvariant c w) (p : Str → Bool) (ord : MapOrder Rat) (hord : ord.IsPerm)
+    (m m' : IngredientList Rat) (r : ScaledRecipe Rat) (h : addRecipe ord c m r = some m') :
+    selW w p m' = selW w p m + selContribution w p r := by
+  unfold addRecipe groupIngredients at h
+  split at h
+  · cases h
+  · rename_i es hes
+    simp only [Option.some.injEq] at h
+    subst h
+    obtain ⟨h1, h2, _⟩ := groupFrom_spec _ _ _ hes
+    rw [audit_selW_foldl_addEntry hw p ord hord]
+    congr 1
+    have hsum : sumBy (fun e : GroupedIngredient Rat =>
+          if e.ingredient.modifiers.shouldBeListed = true ∧ p e.ingredient.displayName = true
+          then GroupedQuantity.gsum w e.quantity else 0) es =
+        sumBy (fun e : GroupedIngredient Rat =>
+          if e.ingredient.modifiers.shouldBeListed = true ∧ p e.ingredient.displayName = true
+          then sumBy w (defQuantities r.ingredients e.ingredient) else 0) es := by
+      apply sumBy_congr
+      intro e he
+      rw [groupQuantities_gsum hw hf (h2 e he)]
+    rw [hsum, ← sumBy_map (fun i : Ingredient (Value Rat) =>
+        if i.modifiers.shouldBeListed = true ∧ p i.displayName = true
+        then sumBy w (defQuantities r.ingredients i) else 0) (·.ingredient) es, h1, sumBy_filter]
+    unfold selContribution
+    apply sumBy_congr
+    intro i _
+    unfold Ingredient.listedDef
+    cases i.relation.isDefinition <;> simp
+
+theorem audit_selW_addRecipes {c : Converter Rat} {w : SQuantity Rat → Rat} (hw : Additive c w)
+    (hf : FitInvariant c w) (p : Str → Bool) (ord : MapOrder Rat) (hord : ord.IsPerm)
+    (rs : List (ScaledRecipe Rat)) (m m' : IngredientList Rat) (h : addRecipes ord c m rs = some m') :
+    selW w p m' = selW w p m + sumBy (selContribution w p) rs := by
+  induction rs generalizing m with
+  | nil =>
+    simp only [addRecipes, Option.some.injEq] at h
+    subst h
+    simp only [sumBy_nil]; grind
+  | cons r rest ih =>
+    unfold addRecipes at h
+    split at h
+    · cases h
+    · rename_i m1 hm1
+      rw [ih m1 h, audit_selW_addRecipe hw hf p ord hord m m1 r hm1, sumBy_cons]; grind
+
+/-- the quantities one recipe sends to the names that satisfy `p`: those of every listed definition
+    whose display name satisfies `p`, with its references -/
+def selRecipeQuantities (p : Str → Bool) (r : ScaledRecipe Rat) : List (SQuantity Rat) :=
+  (r.ingredients.filter (fun i => i.listedDef && p i.displayName)).flatMap (defQuantities r.ingredients)
+
+theorem audit_sumBy_selRecipeQuantities (w : SQuantity Rat → Rat) (p : Str → Bool) (r : ScaledRecipe Rat) :
+    sumBy w (selRecipeQuantities p r) = selContribution w p r := by
+  unfold selRecipeQuantities selContribution
+  rw [sumBy_flatMap, sumBy_filter]
+  apply sumBy_congr
+  intro i _
+  by_cases h1 : i.listedDef = true <;> by_cases h2 : p i.displayName = true <;> simp [h1, h2]
+
 end Cook
